@@ -716,6 +716,7 @@ def extract():
     for nm in need:
         if nm not in consts:
             raise ExtractError("mode.rs: constant %s not found" % nm)
+    for nm in sorted(consts):
         out.append("def %s : Nat := %d" % (nm, consts[nm]))
     # each predicate: `fn mode_xxx(mode: u32) -> bool { <expr> }` translate to Lean over Nat
     preds = ["mode_user_read", "mode_user_write", "mode_user_exec", "mode_user_all", "mode_group_read",
